@@ -64,7 +64,7 @@ CHECKS.update({
          "12 code versions (never knew, original, A>B, A>C, A>B>C in both registration orders, A>B>C>D in six orders; leaf value type and wrapper pointer type) installed through the public registration API around every step; every (sender, intermediary-or-none, receiver) triple is executed; plus scenario 5 at a process that never knew the type, registration-order independence of GetTypeKey and rejection of double registration. Enumerated completely.",
          "A code version is simulated in-process: empty migration registry + that version's RegisterTypeMigration calls + its decoders.", "§4 C17"),
  "C18": ("exploration", "Go race detector over a shared-error stress workload (verdict = DATA RACE blocks in the GORACE logs) + determinism monitor against sequential reference results",
-         "Harness and library are built with -race; per case one shared error (local or decoded) is hit by 16 (quick) / 64 (thorough) goroutines released together, each running 3 / 10 rounds of 14 observer operations in its own order with no synchronisation in the measured region; every result is compared with the sequential reference; overlap of operations is measured from timestamps and a case without overlap does not count as non-trivial.",
+         "Harness and library are built with -race; per case one shared error (local or decoded) is hit by 16 (quick) / 48 (thorough) goroutines released together, each running 3 / 6 rounds of 14 observer operations; the shared value is kept cold (reference computed on a twin) in its own order with no synchronisation in the measured region; every result is compared with the sequential reference; overlap of operations is measured from timestamps and a case without overlap does not count as non-trivial.",
          "The race detector only sees the executions produced.", "§4 C18"),
  "C19": ("exploration", "reference-model monitor on every aggregation accessor vs an independent model over the visible single-cause chain",
          "Chains of 2-9 wrappers (three quarters annotation wrappers) over small trees with strings from a 9-word pool with repeats, empties and a string equal to a standard hint: GetAllHints, FlattenHints, GetAllDetails, FlattenDetails, GetAllIssueLinks, GetTelemetryKeys, GetDomain, GetContextTags, six Has/Is flags and HTTP/gRPC codes must equal the model.",
